@@ -1148,6 +1148,10 @@ pub mod implementations {
             bail!("store_skip can only store a single item");
         }
 
+        if let Some(top @ Primitive::HeapPrimitive(..)) = ctx.get_last_op_item_mut() {
+            *top = top.clone().move_out_of_heap_primitive()?;
+        }
+
         let arg = ctx.get_last_op_item().unwrap();
 
         let Primitive::Bool(val) = arg else {
@@ -1318,7 +1322,7 @@ pub mod implementations {
             bail!("assert can only operate on a single item");
         }
 
-        let item = ctx.pop().unwrap();
+        let item = ctx.pop().unwrap().move_out_of_heap_primitive()?;
 
         let result = item.equals(&bool!(true))?;
 
